@@ -87,8 +87,8 @@ theorem C15_attr_lenient_other (d : Bool) (k : Kind) (h : substitutable k = fals
 
 /-! ### instance level -/
 
-theorem greater_null_right (e : Sev) : Sev.greater e .null = e := by cases e <;> rfl
-theorem greater_null_left (s : Sev) : Sev.greater .null s = s := by cases s <;> rfl
+theorem greater_null_right (e : Sev) : Sev.greater e .null = e := Sev.greater_null_right e
+theorem greater_null_left (s : Sev) : Sev.greater .null s = s := Sev.greater_null_left s
 theorem mergeAttr_null_right (acc : Sev) : mergeAttr acc .null = acc := by cases acc <;> rfl
 theorem mergeAttr_null_left (s : Sev) : mergeAttr .null s = s := by cases s <;> rfl
 
